@@ -78,7 +78,11 @@ def configure(case, lk):
         if case.get("perpipe") and not lite_r:
             lens = list(case["perpipe"])
             lens[case["pipe"]] = L
-            rx.payload_length = lens
+            if case.get("perpipe_order"):
+                for p in case["perpipe_order"]:  # one pipe at a time, in any order
+                    rx.set_payload_length(lens[p], p)
+            else:
+                rx.payload_length = lens
         else:
             rx.payload_length = L
     if case.get("dynmask") and not lite_t and not lite_r:
@@ -219,7 +223,16 @@ def run_case(case, prefix=None):
             res.label("lite-static-unjudged-length")
             continue
         arg = objs[0] if not is_list else (list(objs) if call["form"] == "list" else tuple(objs))
+        deaf = bool(call.get("deaf")) and not pp and call["form"] != "write"
+        if call["form"] == "write" and ci and case["calls"][ci - 1].get("deaf"):
+            # write() is the non-blocking entry point: managing a failed payload and the flags is the caller's job there
+            tx.flush_tx()
+            tx.clear_status_flags()
+        if deaf:
+            rx.listen = False  # the peer's application stops listening for the duration of this call: nothing can arrive
+            sim.advance(300 * US)
         n_trace = len(T.trace)
+        n_log0 = len(lk.med.log)
         raised = None
         result = None
         try:
@@ -264,6 +277,21 @@ def run_case(case, prefix=None):
             if bytes(o) != b:
                 res.fail(P + "/caller-buffer-modified", "caller's %s changed from %d to %d bytes" % (
                     type(o).__name__, len(b), len(o)))
+        if deaf:
+            rx.listen = True
+            sim.advance(300 * US)
+            res.label("peer-deaf-call")
+            if raised is None and not must_raise:
+                lost = bool(case["aa"]) and not ana
+                want_res = ([not lost] * len(exps)) if is_list else (not lost)
+                if call["form"] != "write" and result != want_res:
+                    res.fail(P + "/send-result", "send() returned %r while the peer was not listening (auto-ack %s)" % (result, "on" if lost else "off / not requested"))
+            if R.rxf:
+                res.fail(P + "/received-while-not-listening", "%d payloads in the peer's FIFO" % len(R.rxf))
+            if raised is not None:
+                tx.flush_tx()
+                tx.clear_status_flags()
+            continue
         if raised is None and not must_raise:
             okres = [True] * len(exps) if is_list else True
             if result != okres or (not is_list and result is not True):
@@ -279,6 +307,29 @@ def run_case(case, prefix=None):
             data = rx.read()
             got.append((p, n, None if data is None else bytes(data)))
         want = [(pipe, len(e), e) for e in sent_exp]
+        if got != want and any(c.get("deaf") for c in case["calls"][:ci]):
+            # after packets were lost to a deaf peer the 2-bit packet ID can come round: a packet with the same ID and the
+            # same bytes as the last one the peer took is a re-transmission to its radio and is dropped (hardware rule)
+            log = lk.med.log
+            mine = [e for e in log[n_log0:] if not e["ack"] and e["src"] == "T"]
+            prev = [e for e in log[:n_log0] if not e["ack"] and "R" in e["rx"]]
+            last = (prev[-1]["pid"], prev[-1]["pl"]) if prev else None
+            groups = []
+            for e in mine:
+                if groups and (groups[-1][0]["pid"], groups[-1][0]["pl"]) == (e["pid"], e["pl"]):
+                    groups[-1].append(e)
+                else:
+                    groups.append([e])
+            if len(groups) == len(want):
+                kept = []
+                for w, g in zip(want, groups):
+                    key = (g[0]["pid"], g[0]["pl"])
+                    if last == key and not any("R" in e["rx"] for e in g):
+                        res.label("packet-id-alias-after-losses")
+                        continue
+                    kept.append(w)
+                    last = key
+                want = kept
         if got != want:
             if [g[2] for g in got] != [w[2] for w in want]:
                 res.fail(P + "/received-payloads-differ", "peer read %r, expected %r" % ([g[2] for g in got], [w[2] for w in want]))
@@ -377,6 +428,8 @@ def strategy(drv="full", peer="full"):
             form = draw(st.sampled_from(["single", "single", "list", "tuple", "write"]))
             n = 1 if form in ("single", "write") else draw(st.integers(1, 3))
             calls.append({"form": form, "items": [buf() for _ in range(n)]})
+            if draw(st.integers(0, 5)) == 0:
+                calls[-1]["deaf"] = True
         c = {"drv": drv, "peer": peer, "ch": draw(st.one_of(st.integers(0, 125), st.sampled_from([0, 76, 125]))),
              "rate": rate, "crc": crc, "aw": aw, "ardc": ardc, "aa": aa, "ana": draw(st.booleans()),
              "pipe": draw(st.integers(0, 5)), "a0": bytes(a0).hex(), "a1": a1.hex(), "lsb": lsb, "dyn": dyn, "plen": L,
@@ -385,6 +438,8 @@ def strategy(drv="full", peer="full"):
                      "seed": draw(st.integers(0, 999))}}
         if not dyn and not lite and draw(st.booleans()):
             c["perpipe"] = [draw(st.integers(1, 32)) for _ in range(6)]
+            if draw(st.booleans()):
+                c["perpipe_order"] = draw(st.permutations(list(range(6))))
         if draw(st.integers(0, 2)) == 0:
             bits = st.one_of(st.booleans(), st.integers(0, 0x3F))
             n132 = st.integers(1, 32)
